@@ -21,7 +21,7 @@ SUBS = ["sub", "deep", "x1", "Node", "A", "Msgs"]
 SHORTS = ["A", "B", "C", "Msg", "Zed", "a1", "Foo2", "Foo10", "Fo"]
 
 
-def definitions(max_defs: int = 8, roots: int = 2, versions: bool = True, shorts: typing.Optional[typing.List[str]] = None, subs: typing.Optional[typing.List[str]] = None, min_roots: int = 1, min_defs: int = 1) -> st.SearchStrategy:
+def definitions(max_defs: int = 8, roots: int = 2, versions: bool = True, shorts: typing.Optional[typing.List[str]] = None, subs: typing.Optional[typing.List[str]] = None, min_roots: int = 1, min_defs: int = 1, same_name: bool = False) -> st.SearchStrategy:
     def build(args: typing.Any) -> typing.Any:
         root_specs, raw = args
         roots_ = []
@@ -32,6 +32,15 @@ def definitions(max_defs: int = 8, roots: int = 2, versions: bool = True, shorts
         for d in raw:
             d = dict(d)
             d["root"] = d["root"] % len(roots_)
+            alike = d.pop("alike", 0)
+            if alike == 1 and defs:
+                # another version of the previous definition's name whose digits read the same when run together
+                # (1.10 / 11.0, 1.23 / 12.3, 25.5 / 2.55): versions are pairs of numbers, not strings
+                e = defs[-1]
+                twins = lookalike_versions(e["version"])
+                if twins:
+                    d["root"], d["ns"], d["short"], d["legacy"] = e["root"], list(e["ns"]), e["short"], e["legacy"]
+                    d["version"] = twins[len(raw) % len(twins)]
             key = (roots_[d["root"]]["name"], tuple(d["ns"]), d["short"].lower(), tuple(d["version"]))
             # (full name, version) is unique across the workspace, as the Specification demands
             if key in seen:
@@ -51,7 +60,7 @@ def definitions(max_defs: int = 8, roots: int = 2, versions: bool = True, shorts
             # minor versions under one major keep kind, sealing and extent: make siblings layout-identical (they still differ
             # in their ID constant and version)
             for e in defs:
-                if (e["root"], e["ns"], e["short"], e["version"][0]) == (d["root"], d["ns"], d["short"], d["version"][0]):
+                if (roots_[e["root"]]["name"], e["ns"], e["short"], e["version"][0]) == (roots_[d["root"]]["name"], d["ns"], d["short"], d["version"][0]):
                     for key_ in ("service", "sealed", "size", "refs"):
                         d[key_] = e[key_]
                     break
@@ -61,7 +70,11 @@ def definitions(max_defs: int = 8, roots: int = 2, versions: bool = True, shorts
                          "deprecated": False, "legacy": False, "refs": []})
         return {"roots": roots_, "defs": defs}
 
-    version = st.sampled_from([[1, 0], [1, 0], [1, 1], [2, 0], [0, 1], [1, 2], [255, 255], [1, 10], [10, 0], [9, 1], [100, 2]]) if versions else st.just([1, 0])
+    version = st.one_of(
+        st.sampled_from([[1, 0], [1, 0], [1, 1], [2, 0], [0, 1], [1, 2], [255, 255], [1, 10], [10, 0], [9, 1], [100, 2]]),
+        st.sampled_from([[1, 10], [11, 0], [1, 23], [12, 3], [2, 15], [21, 5], [25, 5], [2, 55], [1, 11], [11, 1], [10, 1], [1, 1], [0, 10], [1, 100], [110, 0]]),
+        st.tuples(st.integers(0, 255), st.integers(0, 255)).filter(lambda v: v != (0, 0)).map(list),
+    ) if versions else st.just([1, 0])
     one = st.fixed_dictionaries(
         {
             "root": st.integers(0, 3),
@@ -74,12 +87,32 @@ def definitions(max_defs: int = 8, roots: int = 2, versions: bool = True, shorts
             "size": st.integers(1, 4),
             "deprecated": st.just(False),
             "legacy": st.sampled_from([False, False, False, True]),
+            "alike": st.sampled_from([0, 0, 0, 1]) if versions else st.just(0),
             "raw_refs": st.lists(
                 st.fixed_dictionaries({"to": st.integers(0, 20), "absolute": st.booleans(), "array": st.sampled_from([None, None, ["le", 2], ["fixed", 2]]), "expr": st.booleans()}), max_size=3
             ),
         }
     )
-    return st.tuples(st.lists(st.sampled_from(ROOT_NAMES), min_size=min_roots, max_size=roots, unique=True), st.lists(one, min_size=min_defs, max_size=max_defs)).map(build)
+    if same_name:
+        # several directories (in different parents) contribute to one root namespace
+        root_lists = st.tuples(st.sampled_from(["ns", "vendor"]), st.integers(max(2, min_roots), max(2, roots))).map(lambda t: [t[0]] * t[1])
+    else:
+        root_lists = st.lists(st.sampled_from(ROOT_NAMES), min_size=min_roots, max_size=roots, unique=True)
+    return st.tuples(root_lists, st.lists(one, min_size=min_defs, max_size=max_defs)).map(build)
+
+
+def lookalike_versions(v: typing.Sequence[int]) -> typing.List[typing.List[int]]:
+    """Other valid versions whose decimal digits, run together, read like those of v."""
+    digits = "%d%d" % (v[0], v[1])
+    out = []
+    for i in range(1, len(digits)):
+        a, b = digits[:i], digits[i:]
+        if (len(a) > 1 and a[0] == "0") or (len(b) > 1 and b[0] == "0"):
+            continue
+        x, y = int(a), int(b)
+        if x <= 255 and y <= 255 and (x, y) != (0, 0) and [x, y] != list(v):
+            out.append([x, y])
+    return out
 
 
 # ------------------------------------------------------------------------------------------------------------- the model
